@@ -79,4 +79,10 @@ LEVEL_TEXT = {
         "note": "Tier (b) is the one place where replay means 'same report from a fresh process with the same seed'. Four genuine defects found and fixed (stats and reload after Close; races on IteratorPool.enabled and on the served DB path); the send-on-closed-channel panic of the periodic reloader at shutdown is a recorded known finding.",
         "technique": "deterministic simulation (seeded scheduler: deadlock/panic/use-after-close) plus a seeded free-running stress tier under the Go race detector",
     },
+    "C20": {
+        "text": "The real fbserver.Server with its shipped handler chain and the real miekg/dns server loops run on a simulated network (UDP loss, duplication, delay, reordering; TCP segmentation with delays, several queries per connection; read/idle deadlines on the fake clock) under the seeded scheduler; every delivered response is compared, after the same wire round trip, with the bare database handler for that message, client, protocol and listener max-answer, plus size/TC, ANY-refusal, question-less message and duplicate-consistency rules and bounded liveness after the last fault. Evidence, not proof.",
+        "design_ref": "§5.11",
+        "note": "The reference handler shares FBDNSDB with the system under test by design (the property is relative to it). TLS, DNSSEC and DoT-TLSA handlers are not started. Holds on the unchanged tree.",
+        "technique": "deterministic simulation: whole server over a simulated UDP/TCP network with seeded faults and scheduling, differential against the bare handler, bounded liveness",
+    },
 }
